@@ -243,3 +243,143 @@ example :
   exact ⟨FamStat.valid_of_all _ _ (by decide +kernel), by decide +kernel, by decide +kernel⟩
 
 end TE.C03
+
+/-! ## class level: the cache-all classes (TE/Model/FamsCache.lean)
+
+  `FamCache.ClassEqFn f cat`: for every non-empty stream `bs` of batches that pass validation, the
+  class `f.cls` (the typed object the driver pack runs) fed `bs` batch by batch runs without error and
+  its `compute()` equals the functional `f.fn = stat >=> out` applied once to the concatenation
+  `cat bs` — errors of the functional included.  `FamCache.*_fn_eq` (TE/Lemmas/FamCacheCurve.lean)
+  identify `f.fn` on a batch with the model functional of TE/Model/Curve.lean on the batch's tensors. -/
+namespace TE.C03
+open TE TE.Fams TE.FamCache
+
+/-- BinaryAUROC (any `num_tasks`, weights); a batch is the list of its sample columns. -/
+theorem C03_class_eq_functional_BinaryAUROC (nt : Nat) : ClassEqFn (binaryAurocC nt) List.flatten :=
+  classEqFn_of_statCat _ FamStat.statCat_catSamples
+
+/-- MulticlassAUROC (every average). -/
+theorem C03_class_eq_functional_MulticlassAUROC (nc : Nat) (avg : Curve.Avg) :
+    ClassEqFn (multiclassAurocC nc avg) catPair :=
+  classEqFn_of_statCat _ FamStat.statCat_rowSamples
+
+/-- BinaryAUPRC (any `num_tasks`). -/
+theorem C03_class_eq_functional_BinaryAUPRC (nt : Nat) : ClassEqFn (binaryAuprcC nt) List.flatten :=
+  classEqFn_of_statCat _ FamStat.statCat_catSamples
+
+/-- MulticlassAUPRC (every average). -/
+theorem C03_class_eq_functional_MulticlassAUPRC (nc : Nat) (avg : Curve.Avg) :
+    ClassEqFn (multiclassAuprcC nc avg) catPair :=
+  classEqFn_of_statCat _ FamStat.statCat_rowSamples
+
+/-- MultilabelAUPRC (every average). -/
+theorem C03_class_eq_functional_MultilabelAUPRC (nl : Nat) (avg : Curve.Avg) :
+    ClassEqFn (multilabelAuprcC nl avg) catPair :=
+  classEqFn_of_statCat _ FamStat.statCat_rowSamples
+
+/-- BinaryPrecisionRecallCurve. -/
+theorem C03_class_eq_functional_BinaryPrecisionRecallCurve : ClassEqFn binaryPrCurveC catPair :=
+  classEqFn_of_statCat _ FamStat.statCat_pairSamples
+
+/-- MulticlassPrecisionRecallCurve (`num_classes` given or `None`).  (Short name: the audit's parser of
+    `#print axioms` needs the report on one 120-column line.) -/
+theorem C03_class_eq_functional_MulticlassPRCurve (nc0 : Option Nat) :
+    ClassEqFn (multiclassPrCurveC nc0) catPair :=
+  classEqFn_of_statCat _ FamStat.statCat_rowSamples
+
+/-- MultilabelPrecisionRecallCurve. -/
+theorem C03_class_eq_functional_MultilabelPRCurve (nl : Nat) :
+    ClassEqFn (multilabelPrCurveC nl) catPair :=
+  classEqFn_of_statCat _ FamStat.statCat_rowSamples
+
+/-- BinaryRecallAtFixedPrecision. -/
+theorem C03_class_eq_functional_BinaryRecallAtFixedPrecision (p : Q) :
+    ClassEqFn (binaryRecallAtPrecisionC p) catPair :=
+  classEqFn_of_statCat _ FamStat.statCat_pairSamples
+
+/-- MultilabelRecallAtFixedPrecision. -/
+theorem C03_class_eq_functional_MultilabelRecallAtPrecision (p : Q) (nl : Nat) :
+    ClassEqFn (multilabelRecallAtPrecisionC p nl) catPair :=
+  classEqFn_of_statCat _ FamStat.statCat_rowSamples
+
+/-- AUC (both `reorder` settings, any `n_tasks`). -/
+theorem C03_class_eq_functional_AUC (reorder : Bool) (nt : Nat) : ClassEqFn (aucC reorder nt) List.flatten :=
+  classEqFn_of_statCat _ FamStat.statCat_catSamples
+
+/-- BinaryBinnedAUROC: on a non-empty cache the class computes `binary_binned_auroc` of the
+    concatenation (the functional itself accepts an empty batch; the class raises in `torch.cat`). -/
+theorem C03_class_eq_functional_BinaryBinnedAUROC (t : List Q) (nt : Nat) (bs : List (List TaskPair))
+    (hne : bs.flatten ≠ []) :
+    ∃ s, eval (binaryBinnedAurocL t nt).cls (single bs) = .ok s ∧
+      (binaryBinnedAurocL t nt).cls.out s = binaryBinnedAurocFn t nt bs.flatten := by
+  refine ⟨_, eval_single_lcls _ bs (valid_catSamples bs), ?_⟩
+  show (binaryBinnedAurocL t nt).outA (samplesOf (catSamples (α := TaskPair)) bs) = _
+  rw [samplesOf_catSamples]
+  exact binaryBinnedAuroc_out_eq_fn t nt _ hne
+
+/-- MulticlassBinnedAUROC (as it is: one value per cached sample, `C06.multiclass_binned_auroc_witness`):
+    on a non-empty cache the class computes `multiclass_binned_auroc` of the concatenation. -/
+theorem C03_class_eq_functional_MulticlassBinnedAUROC (t : List Q) (C : Nat) (bs : List (Mat × List Nat))
+    (hne : bs ≠ []) (hv : Valid (rowSamples (β := Nat)) bs) (hdata : (catPair bs).1 ≠ []) :
+    ∃ s, eval (mcBinnedAurocL t C).cls (single bs) = .ok s ∧
+      (mcBinnedAurocL t C).cls.out s = mcBinnedAurocFn t C (catPair bs) := by
+  obtain ⟨s, h1, h2⟩ := FamStat.classEq_of_statCat (listAcc (List Q × Nat)) (FamStat.statCat_rowSamples (β := Nat))
+    (mcBinnedAurocL t C).outA bs hne hv
+  refine ⟨s, h1, ?_⟩
+  have hl : (catPair bs).1.length = (catPair bs).2.length :=
+    FamStat.catPair_lengths bs fun b hb => (pairSamples_ok_iff b).mp (hv b hb)
+  rw [← mcBinnedAuroc_out_eq_fn t C (catPair bs) hl hdata]
+  exact h2
+
+/-- Wasserstein1D: the class fed any non-empty valid stream computes `wasserstein_1d` of the concatenated
+    samples and weights (missing weights are ones). -/
+theorem C03_class_eq_functional_Wasserstein1D (bs : List WBatch) (hne : bs ≠ []) (hv : WValid bs) :
+    ∃ s, eval wassCls (single bs) = .ok s ∧
+      wassCls.out s = Agg.wasserstein (catW bs).x (catW bs).y (catW bs).xw (catW bs).yw := by
+  obtain ⟨s, h1, h2⟩ := FamStat.classEq_of_statCat (pairAcc (Q × Q) (Q × Q)) statCat_wass wassOut bs hne hv
+  exact ⟨s, h1, by rw [← wassFn_eq_functional]; exact h2⟩
+
+/-- PeakSignalNoiseRatio(data_range=None): the class fed a stream with at least one target element
+    computes the functional (up to `10·log10`) on the concatenation. -/
+theorem C03_class_eq_functional_PSNR_auto (bs : List (List Q × List Q)) (s : Agg.PsnrS)
+    (he : eval (psnrCls none) (single bs) = .ok s) (hne : psnrTargets bs ≠ []) :
+    (psnrCls none).out s = Agg.psnrFn (psnrInputs bs) (psnrTargets bs) none := by
+  have := psnr_merge_tree_auto (single bs) s he (by simpa [flatten_single] using hne)
+  simpa [flatten_single] using this
+
+/-- PeakSignalNoiseRatio(data_range = r > 0). -/
+theorem C03_class_eq_functional_PSNR_fixed (r : Q) (hr : 0 < r) (bs : List (List Q × List Q)) (s : Agg.PsnrS)
+    (he : eval (psnrCls (some r)) (single bs) = .ok s) :
+    (psnrCls (some r)).out s = Agg.psnrFn (psnrInputs bs) (psnrTargets bs) (some r) := by
+  have := psnr_merge_tree_fixed r hr (single bs) s he
+  simpa [flatten_single] using this
+
+/-! ### non-vacuity -/
+
+/-- BinaryPrecisionRecallCurve fed batches of sizes 3, 1, 2: the state is the six samples, and `compute()`
+    is `binary_precision_recall_curve` of the concatenated tensors. -/
+example :
+    let bs : List (List Q × List Q) := [([3/4, 1/4, 1/2], [1, 0, 0]), ([1/8], [1]), ([1, 0], [1, 1])]
+    bs ≠ [] ∧ Valid pairSamples bs ∧
+      (eval binaryPrCurveC.cls (single bs)).toOption
+        = some (true, [(3/4, 1), (1/4, 0), (1/2, 0), (1/8, 1), (1, 1), (0, 1)]) ∧
+      binaryPrCurveC.fn (catPair bs) = Curve.binaryPrCurve [3/4, 1/4, 1/2, 1/8, 1, 0] [1, 0, 0, 1, 1, 1] := by
+  intro bs
+  exact ⟨by decide, valid_of_all' _ _ (by decide +kernel), by decide +kernel,
+    binaryPrCurveC_fn_eq (catPair bs) (by decide)⟩
+
+/-- BinaryAUROC with two tasks: the typed functional on the columns of `(2, 3)` tensors is `binary_auroc`
+    on their rows. -/
+example :
+    (binaryAurocC 2).fn (taskSamplesOf 3 [[1/2, 1/4, 3/4], [0, 1, 1/2]] [[1, 0, 1], [0, 1, 1]] [[1, 1, 1], [1, 2, 1]])
+      = Curve.binaryAurocTasks ([[1/2, 1/4, 3/4], [0, 1, 1/2]].zip ([[1, 0, 1], [0, 1, 1]].zip [[1, 1, 1], [1, 2, 1]])) :=
+  binaryAurocC_fn_eq 2 3 _ _ _ rfl rfl rfl (by decide) (by decide) (by decide)
+
+/-- PSNR(data_range=None) fed three updates (one with a single element). -/
+example :
+    let bs : List (List Q × List Q) := [([1, 2, 3], [1, 2, 5]), ([0], [4]), ([2, 2], [2, 0])]
+    (eval (psnrCls none) (single bs)).toOption.isSome ∧ psnrTargets bs ≠ [] := by
+  intro bs
+  exact ⟨by decide +kernel, by decide +kernel⟩
+
+end TE.C03
